@@ -264,7 +264,7 @@ func (c *chainCircuit[T]) Define(api frontend.API) error {
 				// Exp selects between f.Mul(...) results and the (longer) running value: the padding defect
 				// of Select (probe "exp/base-longer-than-modulus") makes that unsatisfiable; reduce first.
 				rec.fallbacks["Exp-base-reduced(longer than the modulus)"]++
-				base = f.Reduce(base)
+				base = f.Mul(base, f.One()) // Reduce returns a zero-overflow element as is, however long
 			}
 			out = f.Exp(base, a(1))
 		case "Eval":
